@@ -955,3 +955,32 @@ package types
 //@   loop 1 invariant 0 - 1 <= #rangeindex && #rangeindex < len(coins) && len(coinsB) > 0
 //@   loop 1 invariant forall i int :: {coins[i]} 0 <= i && i <= #rangeindex ==> !(val(coins[i].Amount) >= amtB(coins[i].Denom) && amtB(coins[i].Denom) != 0)
 //@   ensures r == (len(coinsB) > 0 && (exists i int :: 0 <= i && i < len(coins) && val(coins[i].Amount) >= amtB(coins[i].Denom) && amtB(coins[i].Denom) != 0))
+
+// ASSUMED (sort.Sort calls back into Len/Less/Swap of the repository through sort.Interface): Sort permutes the
+// coins in place into non-decreasing order of denomination and returns the same slice
+//@ assumed func (coins Coins) Sort() (r Coins)
+//@   mode heap
+//@   modifies elems(coins)
+//@   ensures r == coins
+//@   ensures forall i int :: {r[i]} 0 <= i && i < len(coins) ==> r[i] == old(coins[wit("perm", i)]) && 0 <= wit("perm", i) && wit("perm", i) < len(coins)
+//@   ensures forall j int :: {old(coins[j])} 0 <= j && j < len(coins) ==> old(coins[j]) == r[wit("inv", j)] && 0 <= wit("inv", j) && wit("inv", j) < len(coins)
+//@   ensures forall i int, j int :: {r[i], r[j]} 0 <= i && i < j && j < len(coins) ==> !str_lt(r[j].Denom, r[i].Denom)
+
+// findDup on a sorted set: the index of a coin whose denomination equals its predecessor's, -1 iff there is none
+//@ func findDup(coins Coins) (r int)
+//@   props C18
+//@   loop 1 invariant 1 <= i && i <= len(coins) && prevDenom == coins[i - 1].Denom
+//@   loop 1 invariant forall k int :: {coins[k]} 1 <= k && k < i ==> coins[k].Denom != coins[k - 1].Denom
+//@   ensures r == 0 - 1 ==> (forall k int :: {coins[k]} 1 <= k && k < len(coins) ==> coins[k].Denom != coins[k - 1].Denom)
+//@   ensures r != 0 - 1 ==> 1 <= r && r < len(coins) && coins[r].Denom == coins[r - 1].Denom
+
+// C18: NewCoins (for coins without zero amounts): when it returns, the result is in canonical form - strictly
+// sorted, positive, well-formed denominations - and is a permutation of the given coins; otherwise it panics
+//@ func NewCoins(coins []Coin) (r Coins)
+//@   props C18
+//@   uses reinv
+//@   may_panic
+//@   requires forall i int :: {coins[i]} 0 <= i && i < len(coins) ==> coins[i].Amount.i != nil && val(coins[i].Amount) != 0
+//@   modifies elems(coins)
+//@   ensures [canonical] (forall i int, j int :: {r[i], r[j]} 0 <= i && i < j && j < len(r) ==> str_lt(r[i].Denom, r[j].Denom)) && (forall i int :: {r[i]} 0 <= i && i < len(r) ==> val(r[i].Amount) > 0 && denom_re(r[i].Denom))
+//@   ensures [same] len(r) == len(coins)
